@@ -458,8 +458,6 @@ def _upper_edges(args):
     alph_name, path = args
     stats = {"seeded_reproducibility_breaks": 0}
     w = World()
-    if len(path) == 1:
-        pass
     for ev in path[:-1]:
         w.apply(ev)
     snap = w.snapshot()
@@ -659,7 +657,7 @@ def run(ctx):
     st = agg["stats"]
     cov = {
         "states": len(agg["states"]),
-        "transitions": st.get("transitions", 0) + 0,
+        "transitions": st.get("transitions", 0),
         "traces_validated_against_impl": st.get("leaves", 0),
         "samples": samples or [{"history": hist_text((("seed", 1, 0), ("shots", 2, 1), ("run", None, 0)))}],
         "evaluations": st.get("observations", 0),
